@@ -23,7 +23,9 @@ RULE = ("random mapped models (C06's generator, every root class carries a uid) 
         "references drawn from a small pool (sharing), back references, cycles and self loops, None for optional "
         "fields, empty collections, subclass instances in base-typed fields, the same object twice in a list, Type[...] "
         "values, extreme scalars (nan, inf, -0.0, 2**31-1, unicode); each graph is converted once alone and once as two "
-        "roots sharing one ToDAOState / FromDAOState; plus the hand-written model with alternative mappings and a "
+        "roots sharing one ToDAOState / FromDAOState; plus the hand-written model with alternative mappings (one of them "
+        "inherited by a child and a grandchild, storing fields under other names, under the same name in another encoding and a "
+        "collection in another order), a frozen dataclass with references, sets of builtins and a "
         "custom column type.  Non-trivial = the graph has an aliased node; distinct = (objects, shared nodes, classes) "
         "signature of the graph")
 ASSUMPTIONS = ["underscore fields and fields an alternative mapping drops are excluded from the comparison",
